@@ -165,7 +165,7 @@ func genMatcher(r *ref.R, depth int) *mspec {
 	}
 	switch {
 	case x < 2:
-		return &mspec{kind: "hosts", domains: ref.Pick(r, [][]string{{"a.com"}, {"b.com", "{sub}.example.com"}, {"a.com", "b.com"}, {"{sub}.example.com"}, {"::1", "b.com"}, {"fe80::1", "::1"}})}
+		return &mspec{kind: "hosts", domains: ref.Pick(r, [][]string{{"a.com"}, {"b.com", "{sub}.example.com"}, {"a.com", "b.com"}, {"{sub}.example.com"}, {"::1", "b.com"}, {"fe80::1", "::1"}, {"über.example.com", "b.com"}, {"{sub}.example.com", "über.example.com"}})}
 	case x < 4:
 		return &mspec{kind: "pathver", param: ref.Pick(r, []string{"pv", "", "ver"}), versions: ref.Pick(r, [][]string{{"v1"}, {"v2", "v1"}, {"v1/v1"}, {"v2"}, {"v1", "v2", "v10", "v11"}, {"v1", "v1beta", "v2"}, {"v10", "v1"}})}
 	case x < 5:
@@ -190,7 +190,7 @@ type grouter struct {
 }
 
 var c13Patterns = []string{"/x", "/{p}/y", "/v1/x", "/v1/{p}/y"}
-var c13Hosts = []string{"a.com", "b.com", "x.example.com", "zz.org", "A.com:80", "[::1]", "[::1]:8080", "[FE80::1]", "b.com:"}
+var c13Hosts = []string{"a.com", "b.com", "x.example.com", "zz.org", "A.com:80", "[::1]", "[::1]:8080", "[FE80::1]", "b.com:", "Über.example.com", "über.example.com:8080", "ÄRZTE.Example.com"}
 var c13Paths = []string{"/x", "/v1/x", "/v2/x", "/v1/v1/x", "/7/y", "/v1/7/y", "/v2/v1/x", "/nothing", "/v1", "/v1/", "/v10/x", "/v11/7/y", "/v1beta/x", "/v10/v1/x", "/v111/x"}
 var c13Accepts = []string{"", "application/json;version=1", "text/html;version=2", "a/b;version=3"}
 
@@ -282,6 +282,18 @@ func runC13(c *Ctx) {
 			}
 		}
 		routers = append(routers, gr)
+	}
+	if r.Chance(1, 3) {
+		// Use on a group that has no router yet: the not-found handler is wrapped all the same
+		g.Use(env.MW("g-first"))
+		gUse = append(gUse, "g-first")
+		ops = append(ops, "Group.Use(g-first) on the empty group")
+		c.Class("group_use_before_the_first_router")
+		_, tr := mon.DoTrace(g, mon.Req{Method: "GET", Path: "/nobody/home"})
+		if strings.Join(tr, ">") != "g-first" {
+			c.Violate(fmt.Sprintf("empty group: the not-found handler ran the middlewares %q, the group was given [g-first]", strings.Join(tr, ">")), map[string]any{"ops": ops})
+			return
+		}
 	}
 	for n := r.Range(1, 5); n > 0; n-- {
 		addRouter()
